@@ -51,6 +51,17 @@ def _shares(ck):
                        ' [handlers live in the support header only: a header that is not rewritten keeps the old connections]')
     c15.run(s15)
     ck.floor('R13.9', s4.count + s15.count, 7, 'shared C04 / C15 obligations')
+    # "with the same argument values as the handler's statements prescribe": a constant argument is folded before it is emitted and a string
+    # argument is spelled as a C++ literal; both are the same code as in property bindings
+    import rules.c01 as c01
+    ck.rule('R13.10', 'argument values: constant folding denotes the source operators, string literals denote the source string (shared with C01, C16)')
+    s1 = _core.Shared(ck, 'R13.10', lambda r, k: r == 'R1.2', 'C01:', ' [a constant argument of a handler statement is folded here before it is emitted]')
+    c01.run(s1)
+    import rules.c16 as c16
+    s16 = _core.Shared(ck, 'R13.10', lambda r, k: r == 'R16.1' and (k.startswith('cxx-escaper-table') or k.startswith('string-constant-arm')), 'C16:',
+                       ' [a string argument of a handler statement is spelled by this table]')
+    c16.run(s16)
+    ck.floor('R13.10', s1.count + s16.count, 50, 'shared C01 R1.2 / C16 R16.1 obligations')
 
 
 def _run(ck):
